@@ -123,10 +123,15 @@ def gen_case(rng, ctx):
     clock_time = None
     if rng.random() < 0.2:
         h, mi = rng.randrange(24), rng.randrange(60)
-        style = rng.choice(["hm", "hm_at", "ampm"])
+        style = rng.choice(["hm", "hm_at", "ampm", "hms", "hmsf"])
         if style == "ampm":
             clock_time = [h, 0, 0]
             text += ", %d %s" % ((h % 12) or 12, "AM" if h < 12 else "PM")
+        elif style in ("hms", "hmsf"):
+            sec = rng.randrange(60)
+            us_ = rng.choice([250000, 999999, 1, 500000]) if style == "hmsf" else 0
+            clock_time = [h, mi, sec, us_]
+            text += " at %02d:%02d:%02d" % (h, mi, sec) + ((".%06d" % us_).rstrip("0") if us_ else "")
         else:
             clock_time = [h, mi, 0]
             text += (" at " if style == "hm_at" else " ") + "%02d:%02d" % (h, mi)
@@ -270,7 +275,8 @@ def eval_case(case):
         carry |= info
         for c in cands:
             if c is not None and case["clock_time"]:
-                c = c.replace(hour=case["clock_time"][0], minute=case["clock_time"][1], second=0, microsecond=0)
+                ct_ = case["clock_time"]
+                c = c.replace(hour=ct_[0], minute=ct_[1], second=ct_[2] if len(ct_) > 2 else 0, microsecond=ct_[3] if len(ct_) > 3 else 0)
             exp_walls.add(c)
     for c in carry:
         stats[c] = 1
